@@ -763,6 +763,12 @@ class XMLConverter(PDFConverter[AnyIO]):
             text = self.CONTROL.sub("", text)
         self.write(enc(text))
 
+    def attr(self, text: str) -> str:
+        """Escape a name taken from the document for use as an attribute value."""
+        if self.stripcontrol:
+            text = self.CONTROL.sub("", text)
+        return enc(text)
+
     def receive_layout(self, ltpage: LTPage) -> None:
         def show_group(item: LTItem) -> None:
             if isinstance(item, LTTextBox):
@@ -813,7 +819,10 @@ class XMLConverter(PDFConverter[AnyIO]):
                 )
                 self.write(s)
             elif isinstance(item, LTFigure):
-                s = f'<figure name="{enc(item.name)}" bbox="{bbox2str(item.bbox)}">\n'
+                s = '<figure name="%s" bbox="%s">\n' % (
+                    self.attr(item.name),
+                    bbox2str(item.bbox),
+                )
                 self.write(s)
                 for child in item:
                     render(child)
@@ -841,7 +850,7 @@ class XMLConverter(PDFConverter[AnyIO]):
                     '<text font="%s" bbox="%s" colourspace="%s" '
                     'ncolour="%s" size="%.3f">'
                     % (
-                        enc(item.fontname),
+                        self.attr(item.fontname),
                         bbox2str(item.bbox),
                         item.ncs.name,
                         item.graphicstate.ncolor,
@@ -858,7 +867,7 @@ class XMLConverter(PDFConverter[AnyIO]):
                     name = self.imagewriter.export_image(item)
                     self.write(
                         '<image src="%s" width="%d" height="%d" />\n'
-                        % (enc(name), item.width, item.height),
+                        % (self.attr(name), item.width, item.height),
                     )
                 else:
                     self.write(
